@@ -44,16 +44,17 @@ def main():
     ap.add_argument("--seed", type=int, default=int(os.environ.get("VERIF_SEED", "20260925")))
     ap.add_argument("--tier", default="quick")
     ap.add_argument("--also", default="")
+    ap.add_argument("--dir", default="seeded", help="seeded (sub-agent changes) or reverts (reverse patches of the fix: commits)")
     a = ap.parse_args()
     if sh(f"git -C {REPO} diff --quiet").returncode != 0:
         print("repo working tree not clean"); return 2
-    ids = sorted(d for d in os.listdir(f"{ROOT}/seeded") if os.path.exists(f"{ROOT}/seeded/{d}/patch.diff"))
+    ids = sorted(d for d in os.listdir(f"{ROOT}/{a.dir}") if os.path.exists(f"{ROOT}/{a.dir}/{d}/patch.diff"))
     if a.only:
         ids = [i for i in ids if i in a.only.split(",")]
     rows = []
     try:
         for mid in ids:
-            d = f"{ROOT}/seeded/{mid}"
+            d = f"{ROOT}/{a.dir}/{mid}"
             prop = mid.split("-")[0]
             ap_r = sh(f"git -C {REPO} apply {d}/patch.diff")
             if ap_r.returncode != 0:
@@ -78,7 +79,7 @@ def main():
                   c0.get("exit"), c0.get("clauses"), flush=True)
     finally:
         sh(f"git -C {REPO} checkout -- .")
-    mpath = f"{ROOT}/seeded/MATRIX.json"
+    mpath = f"{ROOT}/{a.dir}/MATRIX.json"
     prev = {r["id"]: r for r in (json.load(open(mpath)) if os.path.exists(mpath) else [])}
     prev.update({r["id"]: r for r in rows})
     json.dump([prev[k] for k in sorted(prev)], open(mpath, "w"), indent=1)
